@@ -289,7 +289,7 @@ def pair_task(task):
 # are larger than this. The payload pattern has a prime period (65521) so that no block, buffer or power-of-two
 # boundary repeats it.
 
-LARGE_SCRIPTS = ['all', 4096, 65536, 1 << 20, (1 << 20) + 1, 1012, 1014, 1000003, 3 << 20, 'records']
+LARGE_SCRIPTS = ['all', 4096, 65536, 1 << 20, (1 << 20) + 1, 1012, 1014, 1000003, 3 << 20, 'records', 'oneshot']
 _PATTERN = bytes(((j * j) + j // 251) & 0xff for j in range(65521))
 
 
@@ -328,6 +328,31 @@ def large_task(task):
             done()
         return acc
     pay = large_payload(nb, _SEED)
+    if script == 'oneshot':
+        # the one-shot functions on a stream of this size (and one that is not a whole number of blocks)
+        from cardutil.mciipm import block_1014, unblock_1014
+        for cut in (0, 5):
+            x = pay[:len(pay) - cut]
+            fo, done = fileobjs.reader(kind, x)
+            try:
+                mid = io.BytesIO()
+                block_1014(fo, mid)
+                if mid.getvalue() != blk_ref.block(x):
+                    acc.viol('c05.large.oneshot', case, 'block_1014 output differs from the layout (%d bytes in)' % len(x),
+                             'the blocked form')
+                    return acc
+                out = io.BytesIO()
+                unblock_1014(io.BytesIO(mid.getvalue()), out)
+                got = out.getvalue()
+                if got[:len(x)] != x or got[len(x):].strip(b'\x40'):
+                    acc.viol('c05.large.oneshot', case, 'unblock_1014(block_1014(x)) differs from x + fill', 'x + fill')
+                    return acc
+            except Exception as ex:
+                acc.viol('c05.large.exception', case, repr(ex), 'blocked / unblocked stream')
+                return acc
+            finally:
+                done()
+        return acc
     fo, done = fileobjs.reader(kind, blk_ref.block(pay))
     try:
         u = Unblock1014(fo)
@@ -360,6 +385,8 @@ def large_tasks(tier):
             kinds = ['bytesio', 'file', 'pipe', 'minimal']
             if tier == 'quick':
                 kinds = [kinds[(i + nb) % 4]] if script not in ('all', 4096) else kinds
+            if script == 'oneshot':
+                kinds = ['bytesio', 'file']       # block_1014 rewinds both of its file objects: seekable ones only
             for kind in kinds:
                 ts.append({'blocks': nb, 'script': script, 'kind': kind})
     return ts
